@@ -741,8 +741,7 @@ def gen_cases(ctx: Ctx) -> list[tuple]:
 
 def large_cases(ctx: Ctx) -> list[tuple]:
     counts = [127, 128, 255, 256, 65534, 65535, 65536, 65537, 65536 + 255, 65536 + 256]
-    if ctx.thorough:
-        counts += [2**24 - 1, 2**24, 2**24 + 1]
+    counts += [2**24 - 1, 2**24, 2**24 + 1] if ctx.thorough else [2**24 - 1, 2**24]
     out = []
     for n in counts:
         for wrap in (0, 1, 2):
